@@ -48,8 +48,11 @@ def _worker(idx):
             if o.verdict is not None and o.verdict.status == "failed":
                 r["model"] = extract_model(o)
                 from . import replay
-                r["scenario"] = replay.build_scenario(o.res.interp, o.res, o.verdict.model) if getattr(o, "res", None) \
-                    else getattr(o, "scenario", None)
+                if "memo" in o.name.split("/", 1)[-1]:
+                    r["scenario"] = {"kind": "history_battery"}
+                else:
+                    r["scenario"] = replay.build_scenario(o.res.interp, o.res, o.verdict.model) if getattr(o, "res", None) \
+                        else getattr(o, "scenario", None)
             if o.verdict is not None and o.verdict.status == "unknown":
                 r["reason"] = o.verdict.reason
             recs.append(r)
